@@ -7,7 +7,7 @@ import shutil
 import subprocess
 from concurrent.futures import ThreadPoolExecutor
 
-from .. import catalog, common, doccheck, gen_doc, uiparse
+from .. import regen, catalog, common, doccheck, gen_doc, uiparse
 from ..gen_doc import Binding, DocGen, Group
 
 ENV = dict(os.environ, NO_COLOR="1")
@@ -525,8 +525,18 @@ def run(tier, seed, replay=None):
                     v.violation("cli-wrote-on-error", "generate-ui %r: %s although Broken.qml has an error" % (order, ", ".join(what)), rp)
     not_diag = {k[0] for k, n in fault_seen.items() if k[1] == "not"}
     distinct = len(stats["kinds"]) + len({k[0] for k in fault_seen}) + len(positions)
+    # every binding of the CURRENT source is in the outputs on disk, also after edits that leave one of the two outputs unchanged
+    _w = regen.HEAD + "QWidget {\n    QCheckBox { id: sel }\n    QLineEdit { id: e1 }\n    QLineEdit { id: e2 }\n%s}\n"
+    n_hist = 0 if replay else regen.regenerated_equals_fresh(v, "c04hist", [
+        (_w % "    QLabel { text: e1.text }\n", _w % "    QLabel { text: e1.text; enabled: sel.checked }\n"),
+        (_w % "    QLabel { text: e1.text; enabled: sel.checked }\n", _w % "    QLabel { text: e1.text }\n"),
+        (_w % "    QPushButton { onClicked: e1.clear() }\n", _w % "    QPushButton { onClicked: e1.clear(); onPressed: e2.clear() }\n"),
+        (_w % "    QLabel { text: \"abc\" }\n", _w % "    QLabel { text: \"abd\" }\n"),
+        (_w % "    QLabel { text: \"abc\"; enabled: sel.checked }\n", _w % "    QLabel { text: e1.text; enabled: true }\n"),
+        (_w % "    QLabel { font.bold: sel.checked; font.pointSize: 9 }\n", _w % "    QLabel { font.bold: sel.checked; font.pointSize: 8 }\n"),
+    ], "stale-output-after-edit", "bindings added, removed, edited")
     return v.finish(
-        evaluations=len(docs) + len(faulted) + n_cli, distinct_nontrivial=distinct,
+        histories_on_disk=n_hist, evaluations=len(docs) + len(faulted) + n_cli, distinct_nontrivial=distinct,
         rule="generated documents mixing constant, dynamic, grouped, attached, pseudo and callback bindings; each binding of an "
              "accepted document located in the .ui (property/attribute/item of its object) and in the header (update function "
              "writing that property through that object / setup function connecting that signal): exactly one place; then one "
